@@ -7,10 +7,12 @@ patch=$(readlink -f "$1"); budget=$2; shift 2
 if ! git -C /repo diff --quiet; then echo "refusing: /repo has uncommitted changes"; exit 2; fi
 git -C /repo apply "$patch" || { echo "patch does not apply"; exit 2; }
 trap 'git -C /repo checkout -- . ; git -C /repo clean -fdq' EXIT
+export VERIF_OUTDIR=${VERIF_OUTDIR:-/var/tmp/mutant-out}; mkdir -p $VERIF_OUTDIR
 for p in "$@"; do
   out=$(./bin/check -p $p -budget $budget -seed ${MUT_SEED:-7} 2>&1)
   rc=$?
   v=$(echo "$out" | grep -c "^VIOLATION")
   first=$(echo "$out" | grep "^violation \[" | head -2 | cut -c1-260 | tr '\n' ' ')
   echo "$p rc=$rc violations=$v $first"
+  echo "$out" | grep "^VIOLATION" | head -3
 done
